@@ -211,3 +211,86 @@ func c09OddKeys(c *Ctx, seed uint64) {
 		}
 	}
 }
+
+// c09StrangerRound: the opening proposal is exempt from authentication, so anybody can open a round of her
+// own in which any NAME is registered with HER key. Messages she then posts on that round verify under
+// the key registered there for the sender named - and must have no effect beyond that round: a signature
+// broadcast whose payload names a real round and a real participant leaves the real round's signature
+// store (and everything else of it) exactly as it was.
+func c09StrangerRound(c *Ctx, seed uint64) {
+	rw, err := buildRefWorld("honest+signing", seed, 3, 2)
+	if err != nil {
+		c.Inconclusive("stranger round: reference world: %v", err)
+		return
+	}
+	defer rw.Close()
+	w := rw.Ce.W
+	all := w.Board.All()
+	var opener *storage.Message
+	for i := range all {
+		if all[i].Event == EvInit {
+			opener = &all[i]
+			break
+		}
+	}
+	if opener == nil || len(rw.Rec.Moments) == 0 {
+		return
+	}
+	last := rw.Rec.Moments[len(rw.Rec.Moments)-1]
+	_, spriv, _ := ed25519.GenerateKey(sched.Derive(7, 7)) // the key strangerProposal registers
+	real := rw.Ce.Round
+	for v, nd := range w.Nodes {
+		nd.Mem.Restore(last.Snaps[v])
+		sp := strangerProposal(*opener)
+		x := fmt.Sprintf("%064x", 0xC09A+v)
+		sp.DkgRoundID = x
+		func() {
+			defer func() { _ = recover() }()
+			_ = nd.Svc.ProcessMessage(sp)
+		}()
+		w.Board.Truncate(len(all))
+		if NodeState(nd, x) == "" {
+			c.Add("stranger_rounds_refused", 1)
+			continue
+		}
+		before := nd.Mem.Snapshot()
+		for batch, msgs := range SigStore(nd, real) {
+			for _, victim := range w.Nodes {
+				for _, shape := range []string{"names-real-round-and-participant", "names-real-round-only", "names-participant-only"} {
+					var forged []map[string]interface{}
+					for mid := range msgs {
+						e := map[string]interface{}{"File": "f", "BatchID": batch, "MessageID": mid, "SrcPayload": []byte("stranger"), "Signature": []byte("not a signature")}
+						if shape != "names-participant-only" {
+							e["DKGRoundID"] = real
+						}
+						if shape != "names-real-round-only" {
+							e["Username"] = victim.Name
+						}
+						forged = append(forged, e)
+					}
+					m := storage.Message{ID: "c09-stranger", DkgRoundID: x, Event: EvSigRecon, Data: mkReq(forged), SenderAddr: victim.Name}
+					m.Signature = ed25519.Sign(spriv, m.Bytes())
+					nd.Mem.Restore(before)
+					var pan interface{}
+					func() {
+						defer func() { pan = recover() }()
+						_ = nd.Svc.ProcessMessage(m)
+					}()
+					after := nd.Mem.Snapshot()
+					w.Board.Truncate(len(all))
+					c.Eval(1)
+					c.Distinct("stranger-round|signature-broadcast|" + shape)
+					c.Add("stranger_round_broadcasts_naming_a_real_round", 1)
+					if pan != nil {
+						c.Add("panics_seen_(judged_by_C18)", 1)
+						continue
+					}
+					if pd := protectedDiff(before, after, x); len(pd) > 0 {
+						c.Violate("C09/message-valid-in-a-strangers-round-changed-a-real-round", fmt.Sprintf("a signature broadcast on round %s (opened by a stranger who registered %q with her own key there; payload %s) changed %v on %s", trunc(x, 8), victim.Name, shape, pd, nd.Name), map[string]interface{}{"node": nd.Name, "claimed_participant": victim.Name, "real_round": real, "batch": batch, "payload_shape": shape})
+					}
+				}
+			}
+		}
+		nd.Mem.Restore(last.Snaps[v])
+	}
+}
